@@ -1,29 +1,43 @@
 ----------------------------- MODULE MC_Sandbox -----------------------------
 (***************************************************************************)
 (* Bounded configurations of Sandbox.tla.                                  *)
-(*   MC_Sandbox_fixed5.cfg   repaired code, all properties, VIEW View     *)
-(*   MC_Sandbox_noview.cfg    the same without VIEW (cross-check) + GenPattern *)
-(*   MC_Sandbox_unfixed*.cfg  the code before the fix: must violate C18    *)
-(*   MC_Sandbox_live*.cfg     FairSpec => Progress, no VIEW, no constraint *)
-(*   MC_Sandbox_gen*.cfg      generator: one REPLAY line per finished      *)
-(*                            behaviour = per (fault sequence, gaps)       *)
+(*   MC_Sandbox_fixed5.cfg    repaired code, request kinds, all properties, VIEW View      *)
+(*   MC_Sandbox_fixedenv4.cfg repaired code, requests + environment (abandon, kill), VIEW  *)
+(*   MC_Sandbox_noview.cfg    the same without VIEW (cross-check) + GenPattern             *)
+(*   MC_Sandbox_unfixed.cfg   the code before ca74683 / e127414 / the EPIPE fix: must      *)
+(*   MC_Sandbox_unfixed_abandon.cfg, MC_Sandbox_unfixed_epipe.cfg   violate C18            *)
+(*   MC_Sandbox_live*.cfg     FairSpec => Progress, no VIEW, no constraint                 *)
+(*   MC_Sandbox_gen*.cfg      generator: one REPLAY line per finished behaviour; the       *)
+(*                            engine keeps one case per (entry sequence, gap vector)       *)
+(*     gen3 / gen4 / gen5u    request kinds                                                *)
+(*     genenv3q / genenv3 / genenv4   requests + abandoned requests + idle kills in every  *)
+(*                            position                                                     *)
+(*     genidle3 / genidle3p   idle times close to and beyond the time limit before         *)
+(*                            quick / slow / overrunning requests                          *)
 (***************************************************************************)
 EXTENDS Sandbox, Json
 
 AllKinds == {"ok", "panic", "overrun", "oom", "exit", "big"}
+EnvAll == AllKinds \cup {"abandon", "abover", "kill"}
+EnvCore == {"ok", "panic", "overrun", "exit", "big", "abandon", "abover", "kill"}
+EnvQuick == {"ok", "panic", "overrun", "exit", "abandon", "abover", "kill"}
+AbandonOnly == {"ok", "abandon"}
+KillOnly == {"ok", "panic", "big", "kill"}
+IdleKinds == {"ok", "slow", "overrun"}
+IdleKindsP == {"ok", "slow", "overrun", "panic"}
 Gaps01 == {0, 1}
 Gaps0 == {0}
-
-GapMs(g) == IF g = 0 THEN 0 ELSE 60
+Gaps023 == {0, 2, 3}
 
 \* Printed when the last call has returned.  `expect` is what the PROPERTY allows for
-\* each request (a set of reply classes; "Ok" means: the request's own result);
+\* each plan entry (a set of reply classes; "Ok" means: the request's own result);
 \* `model` / `gens` are what this behaviour of the transcription did (drift level only).
+\* `gaps` are gap kinds: the engine turns them into milliseconds.
 EmitCase ==
   (cpc = "done") =>
      PrintT(<<"REPLAY", ToJson([plan   |-> plan,
-                                gaps   |-> [i \in DOMAIN gaps |-> GapMs(gaps[i])],
-                                expect |-> [i \in DOMAIN plan |-> Admissible(plan[i])],
+                                gaps   |-> gaps,
+                                expect |-> [i \in DOMAIN plan |-> AdmissibleAt(i)],
                                 model  |-> [i \in DOMAIN got |-> got[i].class],
                                 gens   |-> [i \in DOMAIN got |-> got[i].gen]])>>)
 =============================================================================
